@@ -262,13 +262,17 @@ def setItem [Zero α] [BEq α] (S : Sparse α) (key : Key) (rhs : Rhs α) : Exce
       else .error .reject
     | .linList _ => .error .reject
 
+/-- Value stored under a full subscript: `vals[loc]` where `tt_ismember_rows` finds it,
+zero otherwise. -/
+def lookup [Zero α] (S : Sparse α) (r : List Nat) : α :=
+  match lastIdxOfN S.subs r with
+  | some k => S.vals.getD k 0
+  | none => 0
+
 /-- `extract(searchsubs)`: values at full subscripts (zero when nothing is stored). -/
 def extract [Zero α] (S : Sparse α) (rows : List (List Nat)) : Except Reject (List α) :=
   if rows.any (fun r => !inBounds S.shape r) then .error .reject
-  else .ok (rows.map fun r =>
-    match lastIdxOfN S.subs r with
-    | some k => S.vals.getD k 0
-    | none => 0)
+  else .ok (rows.map S.lookup)
 
 def subsubsref (vals : List α) : SpReadOut α :=
   match vals with
